@@ -38,4 +38,110 @@ def PrintsTok (opt : POpt) (c : Cell) : Prop :=
     ∃ (t : Bytes) (cols' : Int),
       printArgVal (fuel + 1) opt (c :: more) prev st = .ok (⟨st.out ++ t, cols'⟩, t.length) ∧ TokOK t c
 
+/-! ### general lemmas for token proofs -/
+
+/-- a character that can occur inside a numeric word and is not a dot -/
+def wordChar (c : UInt8) : Bool := !isspace c && c ≠ 41 && c ≠ 93 && c ≠ 46 && c ≠ 0
+
+theorem numWordLen_sep (rest : Bytes) (h : Sep rest) : numWordLen rest = 0 := by
+  cases rest with
+  | nil => rfl
+  | cons c r =>
+    rcases h.1 with h | h | h
+    · cases h
+    · simp only [hd_cons] at h; simp [numWordLen, h]
+    · simp only [hd_cons] at h; simp [numWordLen, h]
+
+theorem numWordLen_word (t rest : Bytes) (ht : ∀ c ∈ t, wordChar c = true) (h : Sep rest) :
+    numWordLen (t ++ rest) = t.length := by
+  induction t with
+  | nil => simpa using numWordLen_sep rest h
+  | cons c r ih =>
+    have hc := ht c (by simp)
+    simp only [wordChar, Bool.and_eq_true, ne_eq, decide_eq_true_eq, Bool.not_eq_eq_eq_not, Bool.not_true] at hc
+    obtain ⟨⟨⟨⟨h1, h2⟩, h3⟩, h4⟩, _⟩ := hc
+    have := ih (fun x hx => ht x (by simp [hx]))
+    simp [numWordLen, h1, h2, h3, startsWith, List.isPrefixOf, this]
+    intro h46; exact absurd h46.symm h4
+
+theorem isdigit_wordChar (c : UInt8) (h : isdigit c = true) : wordChar c = true := by
+  revert h; revert c; apply UInt8.forall_of_fin; decide +kernel
+
+/-- the character behind a token -/
+theorem sep_hd_facts (rest : Bytes) (h : Sep rest) :
+    isdigit (hd rest) = false ∧ hd rest ≠ 120 ∧ hd rest ≠ 88 ∧ hd rest ≠ 45 ∧ hd rest ≠ 104 ∧ hd rest ≠ 46 ∧
+    isIdentChar (hd rest) = false ∧ isxdigit (hd rest) = false ∧ hd rest ≠ 39 ∧ hd rest ≠ 34 ∧ hd rest ≠ 40 ∧
+    hd rest ≠ 105 ∧ hd rest ≠ 100 ∧ hd rest ≠ 102 := by
+  rcases h.1 with h | h | h
+  · subst h; decide
+  · revert h; generalize hd rest = c; revert c; apply UInt8.forall_of_fin; decide +kernel
+  · rw [h]; decide
+
+theorem skipDigits_digits (ds rest : Bytes) (hds : ∀ c ∈ ds, isdigit c = true) (hr : isdigit (hd rest) = false) :
+    skipDigits (ds ++ rest) = rest := by
+  induction ds with
+  | nil =>
+    cases rest with
+    | nil => rfl
+    | cons c r => simp only [hd_cons] at hr; simp [skipDigits, hr]
+  | cons c r ih =>
+    simp [skipDigits, hds c (by simp), ih (fun x hx => hds x (by simp [hx]))]
+
+theorem sscanfGo_int_some (conv : IntConv) (w : Option Nat) (sup : Bool) (ds : List Dir) (s : Bytes) (k : Nat)
+    (acc : List SVal) (v : Int) (r : Bytes) (h : scanInt conv w s = some (v, r)) :
+    sscanfGo (.int conv w sup :: ds) s k acc =
+      sscanfGo ds r (k + (s.length - r.length)) (if sup then acc else .int v :: acc) := by
+  simp [sscanfGo, h]
+
+theorem sscanfGo_int_none (conv : IntConv) (w : Option Nat) (sup : Bool) (ds : List Dir) (s : Bytes) (k : Nat)
+    (acc : List SVal) (h : scanInt conv w s = none) :
+    sscanfGo (.int conv w sup :: ds) s k acc = acc.reverse := by
+  simp [sscanfGo, h]
+
+theorem sscanfGo_lit_ne (c : UInt8) (ds : List Dir) (s : Bytes) (k : Nat) (acc : List SVal) (h : hd s ≠ c) :
+    sscanfGo (.lit c :: ds) s k acc = acc.reverse := by
+  cases s with
+  | nil => simp [sscanfGo]
+  | cons x r => simp only [hd_cons] at h; simp [sscanfGo, h]
+
+theorem hd_append_of_ne_nil (t r : Bytes) (h : t ≠ []) : hd (t ++ r) = hd t := by
+  cases t with
+  | nil => exact absurd rfl h
+  | cons c t' => rfl
+
+theorem hd_mem (t : Bytes) (h : t ≠ []) : hd t ∈ t := by
+  cases t with
+  | nil => exact absurd rfl h
+  | cons c t' => simp
+
+theorem sep_skipSpace_facts (rest : Bytes) (h : Sep rest) :
+    hd (skipSpace rest) ≠ 40 ∧ startsWith (skipSpace rest) [46, 46, 46] = false := h.2
+
+/-- a value that is not followed by an ellipsis is what `rtosc_scan_arg_val` returns -/
+theorem finishArg_plain (se : ElemScanner) (t rest : Bytes) (cells : List Cell) (av : Bool)
+    (prev : List Cell) (ab : Nat) (fe : Bool) (hs : Sep rest) :
+    finishArg se (t ++ rest) ⟨rest, cells, av⟩ prev ab fe = .ok (t.length, cells) := by
+  have h3 := (sep_skipSpace_facts rest hs).2
+  unfold finishArg
+  simp [h3, pure, Except.pure]
+
+/-- scanner part of `TokOK` from the value the `switch` delivers -/
+theorem scanArgVal_of_value (t rest : Bytes) (c : Cell) (fuel : Nat) (prev : List Cell) (ab : Nat) (hs : Sep rest)
+    (h : scanValue (scanArgVal fuel) (t ++ rest) prev = .ok ⟨rest, [c], true⟩) :
+    scanArgVal (fuel + 1) (t ++ rest) prev ab true = .ok (t.length, [c]) := by
+  unfold scanArgVal
+  simp only [h, bind, Except.bind]
+  exact finishArg_plain _ t rest [c] true prev ab true hs
+
+/-- checker part of `TokOK` from what the `switch` delivers -/
+theorem skipNext_of_value (t rest : Bytes) (tyOut : UInt8) (dl : UInt8) (fuel : Nat) (ty : UInt8)
+    (llhs : Option Bytes) (ib : Bool) (hs : Sep rest)
+    (h : skipValue (skipNextPrintedArg fuel) (t ++ rest) ty ib = .ok (some ⟨some rest, 1, tyOut, dl⟩)) :
+    ∃ r, skipNextPrintedArg (fuel + 1) (t ++ rest) ty llhs true ib = .ok r ∧
+      r.src = some rest ∧ r.skipped = 1 ∧ r.type = tyOut := by
+  have h3 := (sep_skipSpace_facts rest hs).2
+  refine ⟨⟨some rest, 1, tyOut⟩, ?_, rfl, rfl, rfl⟩
+  unfold skipNextPrintedArg
+  simp [h, bind, Except.bind, h3, pure, Except.pure]
+
 end Rtosc.Pretty
